@@ -28,8 +28,8 @@ VERUS_UNITS = {
                     props=['C08', 'C12', 'C11', 'C10', 'C09']),
     'U-LIB-V': dict(module='contracts.verus.lib_translate', min_verified=9, timeout=600,
                     props=['C09', 'C03', 'C12']),
-    'U-MAIN-V': dict(module='contracts.verus.cli_main', min_verified=11, timeout=600,
-                     props=['C14', 'C03', 'C15', 'C13']),
+    'U-MAIN-V': dict(module='contracts.verus.cli_main', min_verified=12, timeout=600,
+                     props=['C14', 'C03', 'C15', 'C13', 'C16']),
     'U-CAP-V': dict(module='contracts.verus.input_capture', min_verified=18, timeout=600,
                     native_search=dict(src='src/input.rs', file='capture_search.rs'),
                     props=['C09', 'C02', 'C04', 'C05', 'C12']),
